@@ -9,6 +9,7 @@ package fulljs
 import (
 	"fmt"
 	"math/rand"
+	"strconv"
 	"strings"
 )
 
@@ -70,12 +71,13 @@ type scope struct {
 }
 
 type Gen struct {
-	R       *rand.Rand
-	Budget  int
-	nextLab int
-	nextFn  int
-	Stats   map[string]int
-	fields  []string
+	R         *rand.Rand
+	Budget    int
+	nextLab   int
+	nextFn    int
+	Stats     map[string]int
+	fields    []string
+	evalDepth int
 }
 
 func New(r *rand.Rand, budget int) *Gen {
@@ -166,6 +168,40 @@ func (g *Gen) num(sc *scope, d int) node {
 			return node{"(" + a.js + " && " + b.js + ")", fmt.Sprintf("(XAnd %s %s)", a.coq, b.coq)}
 		}
 		return node{"(" + a.js + " || " + b.js + ")", fmt.Sprintf("(XOr %s %s)", a.coq, b.coq)}
+	case k < 19 && g.evalDepth < 2 && g.Budget > 3:
+		// direct or indirect eval of generated statements (no jumps out of the eval code)
+		g.evalDepth++
+		g.Stats["eval"]++
+		inner := *sc
+		inner.inFunc = false
+		direct := r.Intn(3) > 0
+		if !direct {
+			// indirect eval runs as global code: it only sees the global scope
+			inner = scope{nums: []string{"g0", "g1", "g2", "i0", "i1", "i2", "i3"}, iters: sc.iters, withs: sc.withs}
+		}
+		var body []node
+		if r.Intn(2) == 0 {
+			init := g.num(&inner, 1)
+			body = append(body, node{"var ev0 = " + init.js + ";", fmt.Sprintf("(JVar %s (Some %s))", cstr("ev0"), init.coq)})
+			inner.nums = append(append([]string{}, inner.nums...), "ev0")
+		}
+		body = append(body, g.list(&inner, 1+r.Intn(2), nil, 3, false, "")...)
+		// the eval code ends in a value-producing statement, so that its completion value does not depend
+		// on how otto treats values across break/continue (finding C01-completion-value-lost-at-jump)
+		last := g.num(&inner, 1)
+		body = append(body, node{last.js + ";", "(JExpr " + last.coq + ")"})
+		g.evalDepth--
+		var src strings.Builder
+		for _, n := range body {
+			if n.js != "" {
+				src.WriteString(n.js + "\n")
+			}
+		}
+		q := strconv.Quote(src.String())
+		if direct {
+			return node{"eval(" + q + ")", "(XEval true " + clist(body) + ")"}
+		}
+		return node{"(0, eval)(" + q + ")", "(XEval false " + clist(body) + ")"}
 	case k < 18:
 		if len(sc.objs) > 0 {
 			o := g.objRef(sc)
@@ -323,6 +359,10 @@ func (g *Gen) logOf(sc *scope) node {
 		// typeof of assorted things, including an unresolvable name
 		switch r.Intn(5) {
 		case 0:
+			if r.Intn(2) == 0 {
+				e = node{"typeof ev0", "(XTypeof (XVar " + cstr("ev0") + "))"} // declared only by an eval, if at all
+				break
+			}
 			e = node{"typeof nowhere", "(XTypeof (XVar " + cstr("nowhere") + "))"}
 		case 1:
 			if len(sc.fns) > 0 {
